@@ -3,7 +3,7 @@
 import json, os, re, glob, sys
 ROOT = os.path.dirname(os.path.dirname(os.path.abspath(__file__)))
 rows = []
-for d in sorted(glob.glob(os.path.join(ROOT, 'seeded', 'C??-?'))):
+for d in sorted(glob.glob(os.path.join(ROOT, 'seeded', 'C??-?')) + glob.glob(os.path.join(ROOT, 'seeded', 'C??-??')), key=lambda x: (os.path.basename(x)[:3], int(os.path.basename(x)[4:]))):
     name = os.path.basename(d)
     try:
         agent = json.load(open(os.path.join(d, 'meta.agent.json')))
